@@ -349,7 +349,17 @@ func checkC13(p *DBPlan, rc *simkit.RunCtx) {
 			}
 			seq := strings.Join(types, " ")
 			bad := func(why string) {
-				if len(types) == 0 && strings.Contains(rc.Stats.WaitersAtEnd, "database/storage/hashmap/map.go") && strings.Contains(rc.Stats.WaitersAtEnd, "lock-iface") {
+				// replies missing at the end (none at all, or ok records without the closing done)
+				missingEnd := len(types) == 0
+				if (req.Kind == "query" || req.Kind == "qsub") && len(types) > 0 {
+					missingEnd = true
+					for _, t := range types {
+						if t != "ok" {
+							missingEnd = false
+						}
+					}
+				}
+				if missingEnd && strings.Contains(rc.Stats.WaitersAtEnd, "database/storage/hashmap/map.go") && strings.Contains(rc.Stats.WaitersAtEnd, "lock-iface") {
 					rc.Fail("C13.stall", "the database API wedged (hashmap: a query holds the map lock while waiting for the lock of a record that a concurrent put holds while waiting for the map lock)", rc.Stats.WaitersAtEnd)
 					return
 				}
@@ -538,6 +548,29 @@ func checkReadBack(ci int, cs *connState, p *DBPlan, rc *simkit.RunCtx) {
 				continue
 			}
 			otherWriters := false
+			// requests of one connection are handled concurrently: a later write to the key on the same connection
+			// that was sent before the get was answered may be what the get saw
+			var gReply uint64
+			for _, r := range cs.replies {
+				if r.Op == op2 && gReply == 0 {
+					gReply = r.Seq
+				}
+			}
+			for _, op3 := range cs.order {
+				o := cs.reqs[op3]
+				if op3 == op || o.Key != w.Key || !(o.Kind == "create" || o.Kind == "update" || o.Kind == "insert" || o.Kind == "delete") {
+					continue
+				}
+				var oReply uint64
+				for _, r := range cs.replies {
+					if r.Op == op3 && (r.Type == "success" || r.Type == "error") {
+						oReply = r.Seq
+					}
+				}
+				if (gReply == 0 || o.Seq < gReply) && (oReply == 0 || oReply > w.Seq) {
+					otherWriters = true
+				}
+			}
 			for cj, other := range p.Conns {
 				if cj == ci {
 					continue
